@@ -14,6 +14,7 @@
 (*   DEF     [name, sect, line, typ, val, mod] sym_def / sym_mod: first site (file from the tag stack, line)        *)
 (*   REF     [name, sect, line]                sym_ref: AddRef at (current file, line)                              *)
 (*   CHUNK   [kind, seg, addr, n]              emit / reserve / retract in address units                            *)
+(*   (decl = the integer values of the symbols a pass defines: SFR, PORT ... book their address, CodeEquate())       *)
 (*   WARN90                                    diag event number 90 "overlapping memory usage"                     *)
 (* and the second part are the reports, each judged against the state reached (OK below):                          *)
 (*   SYMTAB [names]   USE [seg, items]  USEEND   IMAGE [seg, items] (parsed code file)                               *)
@@ -152,12 +153,17 @@ JudgeSects(e) ==
   THEN V("bad", "section list: the indented list is not the tree of the sections the program opened")
   ELSE IF ls # SectionLines(sl) THEN V("drift", "section list: order differs from PrintSectionList") ELSE Fine
 NameSet(js) == {js[i][1] : i \in 1..Len(js)}
+\* "?" = a name built by {symbol} expansion, which the statement text does not show: then only the readable names are required
 JudgeMacros(e) ==
-  IF NameSet(e.names) # {x.n : x \in macs} THEN V("bad", "macro list: not the macros the program defines")
+  LET known == {x.n : x \in macs} \ {"?"} IN
+  IF "?" \in {x.n : x \in macs} THEN (IF known \subseteq NameSet(e.names) /\ Len(e.names) >= Cardinality({x.n : x \in macs})
+                                      THEN Fine ELSE V("bad", "macro list: a macro the program defines is missing"))
+  ELSE IF NameSet(e.names) # known THEN V("bad", "macro list: not the macros the program defines")
   ELSE IF e.count # Len(e.names) THEN V("bad", "macro list: the count line contradicts the list")
   ELSE IF {<<e.names[i][1], e.names[i][2]>> : i \in 1..Len(e.names)} # {<<x.n, x.s>> : x \in macs} THEN V("drift", "macro list: section attribute differs")
   ELSE Fine
-JudgeFuncs(e) == IF SeqToSet(e.names) # funs THEN V("bad", "function list: not the functions the program defines") ELSE Fine
+JudgeFuncs(e) == IF "?" \in funs THEN (IF (funs \ {"?"}) \subseteq SeqToSet(e.names) THEN Fine ELSE V("bad", "function list: a function the program defines is missing"))
+                 ELSE IF SeqToSet(e.names) # funs THEN V("bad", "function list: not the functions the program defines") ELSE Fine
 RegKeys == {k \in DOMAIN defs : defs[k].typ = 8}
 JudgeRegs(e) ==
   IF NameSet(e.names) # {k[1] : k \in RegKeys} THEN V("bad", "register symbol list: not the register symbols the program defines") ELSE Fine
